@@ -3,6 +3,7 @@ import EaselModel.Dist.GumbelThm
 import EaselModel.Dist.WeiThm
 import EaselModel.Dist.GevThm
 import EaselModel.Dist.SpecialFamThm
+import EaselModel.Dist.NormalThm
 import EaselModel.Dist.MixGen
 import EaselModel.Dist.MixLogGen
 import EaselModel.Dist.IntegralThm
@@ -216,9 +217,9 @@ example : esl_gev_logsurv (-10 : ℝ) 0 1 0.5 = 0.0 :=
 /-! ## Families on the special functions: gamma, stretched exponential, normal, log-normal
 
 `esl_stats_LogGamma` / `esl_stats_IncompleteGamma` enter as the hand model of `Dist/Special.lean` read over `ℝ`
-(`realIncGamma`, `some (P,Q)` where the C function returns `eslOK`), `esl_stats_erfc` as an opaque symbol.
-`_partial`: the full statement also needs "P is the regularised incomplete gamma function / erfc is the complementary
-error function", monotone cdf, inverse and derivative; those are NOT proved (L0 monitors compare with mpmath). -/
+(`realIncGamma`, `some (P,Q)` where the C function returns `eslOK`); `erfc` is the complementary error function.
+`_partial` (gamma, stretched exponential): the full statement also needs "P is the regularised incomplete gamma
+function", monotone cdf, inverse and derivative; those are NOT proved (L0 monitors compare with mpmath). -/
 
 /-- gamma: cdf + surv = 1 exactly wherever `IncompleteGamma` converges (it forms `Q = 1 - P` or `P = 1 - Q`), the log
     versions are the logarithms of the plain versions, `pdf = exp logpdf` on the interior of the support (repaired: the
@@ -239,15 +240,68 @@ theorem sxp_laws_partial {x μ l τ : ℝ} (hl : 0 < l) (hτ : 0 < τ) :
       (μ ≤ x → esl_sxp_logpdf x μ l τ = log (esl_sxp_pdf x μ l τ)) :=
   ⟨SpecialFamThm.sxp_cdf_add_surv, SpecialFamThm.sxp_logcdf, SpecialFamThm.sxp_logsurv, SpecialFamThm.sxp_logpdf hl hτ⟩
 
-/-- normal: given the reflection law and antitonicity of `erfc` (hypotheses, not axioms): cdf + surv = 1 and the cdf is
-    non-decreasing; `logpdf = log pdf` unconditionally (`σ > 0`).  Log-normal: `logpdf = log pdf` on `x > 0`. -/
-theorem normal_laws_partial {μ σ : ℝ} (hσ : 0 < σ) :
-    ((∀ t : ℝ, Num.erfc (-t) = 2 - Num.erfc t) → ∀ x, esl_normal_cdf x μ σ + esl_normal_surv x μ σ = 1) ∧
-      (Antitone (Num.erfc : ℝ → ℝ) → Monotone (fun x => esl_normal_cdf x μ σ)) ∧
-      (∀ x, esl_normal_logpdf x μ σ = log (esl_normal_pdf x μ σ)) ∧
-      (∀ x, 0 < x → esl_lognormal_logpdf x μ σ = log (esl_lognormal_pdf x μ σ)) :=
-  ⟨fun h x => SpecialFamThm.normal_cdf_add_surv h x μ σ, fun h => SpecialFamThm.normal_cdf_mono h hσ,
-    fun _ => SpecialFamThm.normal_logpdf hσ, fun _ hx => SpecialFamThm.lognormal_logpdf hx hσ⟩
+/-- normal (and log-normal log density).  `erfc` over `ℝ` is the complementary error function
+    `(2/√π) ∫_t^∞ e^{-x²} dx` built on Mathlib's Gaussian integral (`Dist/ErfcGauss.lean`; Mathlib 4.33 has no `erfc`) —
+    the round-2 hypotheses "`erfc (-t) = 2 - erfc t`, `erfc` antitone" are now PROVED for it.
+    L2, textbook `Φ(x) = ½ erfc(−(x−μ)/(σ√2))`: non-decreasing, within `[0,1]`, limits `0` and `1`, cdf + surv = 1, the
+    density `e^{−z²/2}/(σ√(2π))` is its derivative everywhere and integrates to cdf differences.
+    L1: `esl_normal_cdf`, `esl_normal_surv` ARE the textbook functions (so cdf + surv = 1 exactly), `esl_normal_pdf`
+    equals the textbook density up to the factor `√(π / eslCONST_PI)` with `|eslCONST_PI − π| ≤ 1e-20`,
+    `logpdf = log pdf`; log-normal: `logpdf = log pdf` on `x > 0`.
+    What stays L0 (monitored, `1e-9` relative against mpmath): that `esl_stats_erfc` — Sun's rational approximation,
+    hand model `erfcSun`, bit-exact at `Float` — agrees with the mathematical `erfc`. -/
+theorem normal_laws {μ σ : ℝ} (hσ : 0 < σ) :
+    (Monotone (NormalThm.normalCdf μ σ) ∧ (∀ x, 0 ≤ NormalThm.normalCdf μ σ x ∧ NormalThm.normalCdf μ σ x ≤ 1) ∧
+      Filter.Tendsto (NormalThm.normalCdf μ σ) Filter.atBot (nhds 0) ∧ Filter.Tendsto (NormalThm.normalCdf μ σ) Filter.atTop (nhds 1) ∧
+      (∀ x, NormalThm.normalCdf μ σ x + NormalThm.normalSurv μ σ x = 1) ∧
+      (∀ x, HasDerivAt (NormalThm.normalCdf μ σ) (NormalThm.normalPdf μ σ x) x) ∧
+      (∀ a b, a ≤ b → ∫ x in a..b, NormalThm.normalPdf μ σ x = NormalThm.normalCdf μ σ b - NormalThm.normalCdf μ σ a)) ∧
+    (∀ x, esl_normal_cdf x μ σ = NormalThm.normalCdf μ σ x ∧ esl_normal_surv x μ σ = NormalThm.normalSurv μ σ x ∧
+      esl_normal_cdf x μ σ + esl_normal_surv x μ σ = 1 ∧
+      esl_normal_pdf x μ σ * √(2 * 3.14159265358979323846264338328) = NormalThm.normalPdf μ σ x * √(2 * π) ∧
+      esl_normal_logpdf x μ σ = log (esl_normal_pdf x μ σ)) ∧
+    |(3.14159265358979323846264338328 : ℝ) - π| ≤ 1e-20 ∧
+    (∀ x, 0 < x → esl_lognormal_logpdf x μ σ = log (esl_lognormal_pdf x μ σ)) :=
+  ⟨⟨NormalThm.normalCdf_mono hσ, NormalThm.normalCdf_range μ σ, NormalThm.normalCdf_tendsto_zero hσ,
+      NormalThm.normalCdf_tendsto_one hσ, NormalThm.normalCdf_add_surv μ σ, NormalThm.normalCdf_hasDerivAt (ne_of_gt hσ),
+      fun _ _ hab => NormalThm.normal_integral_pdf hσ hab⟩,
+    fun x => ⟨NormalThm.code_cdf x μ σ, NormalThm.code_surv x μ σ,
+      by rw [NormalThm.code_cdf, NormalThm.code_surv]; exact NormalThm.normalCdf_add_surv μ σ x,
+      NormalThm.code_pdf x μ σ, SpecialFamThm.normal_logpdf hσ⟩,
+    NormalThm.pi_literal, fun _ hx => SpecialFamThm.lognormal_logpdf hx hσ⟩
+
+/-- log-normal (`X = e^N`; the library has only its density): the textbook cdf `Φ((ln x − μ)/σ)` is non-decreasing on
+    `x > 0`, the textbook density `φ((ln x − μ)/σ)/(σ x)` is its derivative there and integrates to cdf differences;
+    `esl_lognormal_pdf` is that density up to the factor `√(π / eslCONST_PI)`. -/
+theorem lognormal_laws {μ σ : ℝ} (hσ : 0 < σ) :
+    MonotoneOn (NormalThm.lognormalCdf μ σ) (Set.Ioi 0) ∧
+    (∀ x, 0 < x → HasDerivAt (NormalThm.lognormalCdf μ σ) (NormalThm.lognormalPdf μ σ x) x) ∧
+    (∀ a b, 0 < a → a ≤ b → ∫ x in a..b, NormalThm.lognormalPdf μ σ x = NormalThm.lognormalCdf μ σ b - NormalThm.lognormalCdf μ σ a) ∧
+    (∀ x, 0 < x → esl_lognormal_pdf x μ σ * √(2 * 3.14159265358979323846264338328) = NormalThm.lognormalPdf μ σ x * √(2 * π)) :=
+  ⟨NormalThm.lognormalCdf_mono_on hσ, fun _ hx => NormalThm.lognormalCdf_hasDerivAt (ne_of_gt hσ) hx,
+    fun _ _ ha hab => NormalThm.lognormal_integral_pdf hσ ha hab, fun _ hx => NormalThm.code_lognormal_pdf hx⟩
+
+/-- gamma and stretched exponential: on the interior of the support the translated densities ARE the closed forms up to
+    the `esl_stats_LogGamma` symbol — `pdf · e^{LogGamma τ} = λ^τ (x−μ)^{τ−1} e^{−λ(x−μ)}` (textbook density × `Γ(τ)`), resp.
+    `pdf · e^{LogGamma(1/τ)} = λ τ e^{−(λ(x−μ))^τ}` — and the cdfs are `P(τ, λ(x−μ))`, resp. `P(1/τ, (λ(x−μ))^τ)` of the
+    `esl_stats_IncompleteGamma` model.  (That `LogGamma ≈ log Γ` and `P ≈` the regularised incomplete gamma function is L0.) -/
+theorem gam_sxp_closed_forms {x μ l τ : ℝ} (hl : 0 < l) (hx : μ < x) :
+    esl_gam_pdf x μ l τ * exp (Num.logGamma τ) = l ^ τ * (x - μ) ^ (τ - 1) * exp (-(l * (x - μ))) ∧
+    esl_sxp_pdf x μ l τ * exp (Num.logGamma (1 / τ)) = l * τ * exp (-(l * (x - μ)) ^ τ) ∧
+    esl_gam_cdf x μ l τ = Num.incGammaP τ (l * (x - μ)) ∧
+    esl_sxp_cdf x μ l τ = Num.incGammaP (1 / τ) ((l * (x - μ)) ^ τ) := by
+  have hy : 0 < l * (x - μ) := mul_pos hl (by linarith)
+  refine ⟨SpecialFamThm.gam_pdf_closed hl hx, SpecialFamThm.sxp_pdf_closed hl hx, ?_, ?_⟩
+  · unfold esl_gam_cdf; simp only [lit_zero]; rw [if_neg (not_le.mpr hy)]
+  · unfold esl_sxp_cdf; simp only [lit_one, num_exp, num_log]; rw [if_neg (not_le.mpr hx), Real.rpow_def_of_pos hy, mul_comm τ]
+
+/-- `esl_stats_IncompleteGamma` (hand model read over `ℝ`), the facts that need no analysis: it fails (C: `eslERANGE`) for
+    `a ≤ 0` or `x < 0`; a result `(P, Q)` implies `a > 0`, `x ≥ 0`, `P + Q = 1`, and it is `P` that is formed as `1 − Q` on
+    the continued-fraction branch `x > a + 1`, `Q` as `1 − P` on the series branch. -/
+theorem incomplete_gamma_structure {a x : ℝ} :
+    ((a ≤ 0 ∨ x < 0) → realIncGamma a x = none) ∧
+    (∀ P Q, realIncGamma a x = some (P, Q) → 0 < a ∧ 0 ≤ x ∧ P + Q = 1 ∧ (a + 1 < x → P = 1 - Q) ∧ (¬ a + 1 < x → Q = 1 - P)) :=
+  ⟨SpecialFamThm.realIncGamma_range_error, fun _ _ h => SpecialFamThm.realIncGamma_branches h⟩
 
 /-- Edge, every carrier: gamma below the support (`λ(x-μ) < 0`, resp. `≤ 0`), stretched exponential below `μ`, log-normal
     at `0`: density `0`, cdf `0`, surv `1`, log versions `-inf`, `-inf`, `0`. -/
@@ -438,6 +492,31 @@ theorem bisection_inverses_terminate {p μ l τ δ X : ℝ} {N1 N2 fuel : Nat} (
     fun hx hlow hX h1 h2 => BisectGen.hxp_invcdf fuel p hx ▸ BisectTerm.invcdfRight_terminates hδ hlow hX h1 h2 hf1 hf2,
     fun mg XL N0 hf0 hL hR h0 h1 h2 => BisectGen.mixgev_invcdf fuel p mg ▸ BisectTerm.invcdfMix_terminates hL hR h0 h1 h2 hf0 hf1 hf2⟩
 
+/-- Known finding `C10:mixture_invcdf:p-above-cdf-max` (known_findings.d/C10.json), the counter-example over `ℝ`: when `p`
+    lies above every value the (translated) mixture cdf takes — in binary64: `p = 1` and coefficients summing to `1 − 2⁻⁵³` —
+    `esl_hxp_invcdf` returns for NO fuel; the hypothesis `∀ x ≥ X, p ≤ cdf x` of `bisection_inverses_terminate` is exactly
+    what fails.  (The C function then never returns: reproduced, fix proposed.) -/
+theorem bisection_inverses_hang_above_sup {p : ℝ} (h : ESL_HYPEREXP ℝ) (hsup : ∀ x, esl_hxp_cdf x h < p) (fuel : Nat) :
+    esl_hxp_invcdf fuel p h = none :=
+  BisectGen.hxp_invcdf fuel p h ▸ BisectTerm.invcdfRight_never (cdf := fun x => esl_hxp_cdf x h) hsup fuel
+
+/-- the hypothesis is satisfiable: a one-component "mixture" with coefficient `0.5` never reaches `p = 1` -/
+example (fuel : Nat) : esl_hxp_invcdf fuel 1 ({ mu := 0, K := 1, q := [0.5], lambda := [1], wrk := [0] } : ESL_HYPEREXP ℝ) = none := by
+  have ok : MixGen.HxpOK ({ mu := 0, K := 1, q := [0.5], lambda := [1], wrk := [0] } : ESL_HYPEREXP ℝ) := by
+    intro k hk
+    have : k = 0 := by simp only at hk; omega
+    subst this; simp [MixGen.hq, MixGen.hl]; norm_num
+  apply bisection_inverses_hang_above_sup
+  intro x
+  have h1 := (MixGen.hxp_code_eq_textbook ok x).1
+  have h2 := ((MixGen.hxp_textbook_laws ok).2.2.1 x).2
+  have hQ : MixGen.hxpQ ({ mu := 0, K := 1, q := [0.5], lambda := [1], wrk := [0] } : ESL_HYPEREXP ℝ) = 0.5 := by
+    simp [MixGen.hxpQ, MixGen.hq]
+  rw [hQ] at h1 h2
+  rw [abs_le] at h1
+  norm_num at h1 h2 ⊢
+  linarith [h1.2]
+
 /-- The generic loops on a genuine cdf (uniform on `[0,1]`, `μ = 0`, `p = 1/2`): the hypotheses of the termination and
     accuracy theorems are satisfiable, 25 iterations per loop suffice, and the result is within `1e-6 · r` of `1/2`. -/
 example : (Bisect.invcdfRight 25 (fun x : ℝ => max 0 (min x 1)) (1 / 2) 0).isSome :=
@@ -493,6 +572,34 @@ example : ∫ x in (1 : ℝ)..2, weiPdf 0 1 0.5 x = weiCdf 0 1 0.5 2 - weiCdf 0 
 example : ∫ x in (-1 : ℝ)..3, gevPdf 0 1 0.5 x = gevCdf 0 1 0.5 3 - gevCdf 0 1 0.5 (-1) :=
   (pdf_integrates_to_cdf_differences 0 1 0 0.5 (-1) 3 (by norm_num)).2.2.2.1 (by norm_num) (by norm_num)
     (by unfold gevArg; norm_num) (by unfold gevArg; norm_num)
+
+/-! ## Generic API (`esl_<d>_generic_<f>(x, void *params)`, used by the histogram module) -/
+
+/-- every translated generic-API wrapper forwards to the scalar function with `params[0..]` (the mixtures: with the
+    structure itself), for every carrier -/
+theorem generic_api_forwards {α : Type} [Add α] [Sub α] [Mul α] [Div α] [Neg α] [OfScientific α] [LT α] [LE α]
+    [DecidableLT α] [DecidableLE α] [Num α] (x : α) (v : List α) (h : ESL_HYPEREXP α) (g : ESL_MIXGEV α) (fuel : Nat) :
+    let a := v.getD 0 0.0; let b := v.getD 1 0.0; let c := v.getD 2 0.0
+    (esl_exp_generic_pdf x v = esl_exp_pdf x a b ∧ esl_exp_generic_cdf x v = esl_exp_cdf x a b ∧
+      esl_exp_generic_surv x v = esl_exp_surv x a b ∧ esl_exp_generic_invcdf x v = esl_exp_invcdf x a b) ∧
+    (esl_gumbel_generic_pdf x v = esl_gumbel_pdf x a b ∧ esl_gumbel_generic_cdf x v = esl_gumbel_cdf x a b ∧
+      esl_gumbel_generic_surv x v = esl_gumbel_surv x a b ∧ esl_gumbel_generic_invcdf x v = esl_gumbel_invcdf x a b) ∧
+    (esl_gev_generic_pdf x v = esl_gev_pdf x a b c ∧ esl_gev_generic_cdf x v = esl_gev_cdf x a b c ∧
+      esl_gev_generic_surv x v = esl_gev_surv x a b c ∧ esl_gev_generic_invcdf x v = esl_gev_invcdf x a b c) ∧
+    (esl_wei_generic_pdf x v = esl_wei_pdf x a b c ∧ esl_wei_generic_cdf x v = esl_wei_cdf x a b c ∧
+      esl_wei_generic_surv x v = esl_wei_surv x a b c ∧ esl_wei_generic_invcdf x v = esl_wei_invcdf x a b c) ∧
+    (esl_sxp_generic_pdf x v = esl_sxp_pdf x a b c ∧ esl_sxp_generic_cdf x v = esl_sxp_cdf x a b c ∧
+      esl_sxp_generic_surv x v = esl_sxp_surv x a b c ∧ esl_sxp_generic_invcdf fuel x v = esl_sxp_invcdf fuel x a b c) ∧
+    (esl_gam_generic_pdf x v = esl_gam_pdf x a b c ∧ esl_gam_generic_cdf x v = esl_gam_cdf x a b c ∧
+      esl_gam_generic_surv x v = esl_gam_surv x a b c ∧ esl_gam_generic_invcdf fuel x v = esl_gam_invcdf fuel x a b c) ∧
+    (esl_normal_generic_pdf x v = esl_normal_pdf x a b ∧ esl_normal_generic_cdf x v = esl_normal_cdf x a b ∧
+      esl_normal_generic_surv x v = esl_normal_surv x a b) ∧
+    (esl_hxp_generic_pdf x h = esl_hxp_pdf x h ∧ esl_hxp_generic_cdf x h = esl_hxp_cdf x h ∧
+      esl_hxp_generic_surv x h = esl_hxp_surv x h ∧ esl_hxp_generic_invcdf fuel x h = esl_hxp_invcdf fuel x h) ∧
+    (esl_mixgev_generic_pdf x g = esl_mixgev_pdf x g ∧ esl_mixgev_generic_cdf x g = esl_mixgev_cdf x g ∧
+      esl_mixgev_generic_surv x g = esl_mixgev_surv x g ∧ esl_mixgev_generic_invcdf fuel x g = esl_mixgev_invcdf fuel x g) :=
+  ⟨⟨rfl, rfl, rfl, rfl⟩, ⟨rfl, rfl, rfl, rfl⟩, ⟨rfl, rfl, rfl, rfl⟩, ⟨rfl, rfl, rfl, rfl⟩, ⟨rfl, rfl, rfl, rfl⟩,
+    ⟨rfl, rfl, rfl, rfl⟩, ⟨rfl, rfl, rfl⟩, ⟨rfl, rfl, rfl, rfl⟩, ⟨rfl, rfl, rfl, rfl⟩⟩
 
 /-! ## Sampling -/
 
